@@ -58,6 +58,9 @@ fn spell(d: Dialect, t: &Tok, prev_is_values_kw: bool) -> Result<String, String>
     let _ = prev_is_values_kw;
     Ok(match t {
         Tok::Ident(s) => q_ident(s),
+        // PostgreSQL writes a byte string as the text literal '\x<hex>' (bytea hex input)
+        Tok::Str(s) if d == Dialect::Postgres && s.starts_with("\\x") && crate::lex::pg_bytea_hex(s).is_some() => format!("x'{}'", crate::lex::pg_bytea_hex(s).unwrap().iter().map(|x| format!("{:02X}", x)).collect::<String>()),
+        Tok::Str(s) if d == Dialect::Postgres && s.starts_with("\\x") => return Err(format!("byte-string literal {s:?} is not valid bytea hex input")),
         Tok::Str(s) => q_str(s),
         Tok::Blob(b) => format!("x'{}'", b.iter().map(|x| format!("{:02X}", x)).collect::<String>()),
         Tok::Num(n) => n.clone(),
@@ -423,6 +426,77 @@ fn run_expr_trees(rep: &Arc<Report>) -> (u64, u64) {
     (evaluated.get(), skipped.get())
 }
 
+/// literal values, three-way: text with every character class the escapers treat specially, byte strings (small bytes,
+/// long runs), integers at the edges, doubles and chars, inlined in `SELECT <value>, ..` and in a WHERE comparison on each
+/// backend; the MySQL and PostgreSQL texts are transliterated and all three are executed: the engine must return the
+/// same typed values.
+fn run_literals(rep: &Arc<Report>) -> u64 {
+    let mut vals: Vec<Value> = vec![];
+    for t in ["", "plain", "it's", "a\\b", "tab\there", "l1\nl2", "cr\rx", "q\"q", "sub\u{1a}z", "bs\u{8}x", "pct%_", "é😀", "'; --", "\\", "\\'"] {
+        vals.push(t.into());
+    }
+    for b in [vec![], vec![0u8], vec![1, 2], vec![0xde, 0x0a, 0xbe], vec![0x0f; 9], (0u8..20).collect::<Vec<u8>>(), vec![0x27, 0x5c, 0x00]] {
+        vals.push(Value::Bytes(Some(Box::new(b))));
+    }
+    for i in [0i64, 1, -1, 42, i64::MAX, i64::MIN + 1] {
+        vals.push(i.into());
+    }
+    for f in [1.5f64, -0.25, 1e10, 123456.789] {
+        vals.push(f.into());
+    }
+    for c in ['a', 'é', '\'', '\\'] {
+        vals.push(c.into());
+    }
+    let mut n = 0;
+    for v in &vals {
+        for form in ["select", "where"] {
+            n += 1;
+            let mk = |d: Dialect| {
+                let mut q = Query::select();
+                match form {
+                    "select" => {
+                        q.expr(Expr::val(v.clone())).expr(Func::cust(Alias::new("typeof")).arg(Expr::val(v.clone())));
+                    }
+                    _ => {
+                        q.expr(Func::count(Expr::col(Asterisk))).from(Alias::new("t1")).and_where(Expr::col(Alias::new("s")).ne(Expr::val(v.clone()))).and_where(Expr::val(v.clone()).eq(Expr::val(v.clone())));
+                    }
+                }
+                match d {
+                    Dialect::Mysql => q.to_string(MysqlQueryBuilder),
+                    Dialect::Postgres => q.to_string(PostgresQueryBuilder),
+                    Dialect::Sqlite => q.to_string(SqliteQueryBuilder),
+                }
+            };
+            let fail = |sig: &str, detail: String| {
+                rep.raw_failures.inc();
+                rep.violation(Violation { key: format!("literal|{sig}|{}", crate::props::c12::variant(v)), what: format!("{form} with {:?}: {detail}", v), case: json!({"kind": "literal", "value": format!("{:?}", v), "form": form}) });
+            };
+            let texts = match three_texts(mk) {
+                Ok(t) => t,
+                Err(e) => {
+                    fail("cannot-transliterate", e);
+                    continue;
+                }
+            };
+            let rows: Vec<Result<Vec<String>, String>> = texts.iter().map(|t| with_db(|db| db.query(t, &[])).map(|r| row_list(&r))).collect();
+            let names = ["mysql", "postgres", "sqlite"];
+            match &rows[2] {
+                Err(e) => fail("sqlite-text-rejected", format!("{:?}: {e}", texts[2])),
+                Ok(want) => {
+                    for k in 0..2 {
+                        match &rows[k] {
+                            Err(e) => fail(&format!("{}-text-rejected", names[k]), format!("{} rendering (as {:?}): {e}; the sqlite rendering {:?} is accepted", names[k], texts[k], texts[2])),
+                            Ok(got) if got != want => fail(&format!("{}-denotes-a-different-value", names[k]), format!("{} rendering (as {:?}) returns {:?}; the sqlite rendering {:?} returns {:?}", names[k], texts[k], got, texts[2], want)),
+                            _ => {}
+                        }
+                    }
+                }
+            }
+        }
+    }
+    n
+}
+
 pub fn run(rep: &Arc<Report>) {
     let (ds, dd) = if rep.thorough() { (5, 5) } else { (4, 4) };
     let m = SelModel { name: "select", menu: portable_select_menu(rep.thorough()), checks: vec![Box::new(check_select)], sqlite_only: true };
@@ -440,6 +514,8 @@ pub fn run(rep: &Arc<Report>) {
         exhaustive &= s2.exhaustive;
     }
     rep.set("portable_select_menu_size", json!(m.menu.len()));
+    let lits = run_literals(rep);
+    rep.set("literal_cases_executed_three_way", json!(lits));
     let (te, ts) = run_expr_trees(rep);
     rep.set("expression_trees_evaluated_three_way", json!(te));
     rep.set("expression_trees_not_evaluable", json!(ts));
@@ -460,6 +536,11 @@ pub fn run(rep: &Arc<Report>) {
 }
 
 pub fn replay(case: &serde_json::Value) -> Option<String> {
+    if case["kind"].as_str() == Some("literal") {
+        let rep = Arc::new(Report::new("C09", "quick"));
+        run_literals(&rep);
+        return rep.find_violation("literal|");
+    }
     if case["kind"].as_str() == Some("expr-tree") {
         let rep = Arc::new(Report::new("C09", "thorough"));
         run_expr_trees(&rep);
